@@ -51,9 +51,13 @@ THEOREMS = [
     "CrCube.C01.partition_class_cases",
     "CrCube.C01.ca_as_0th_cases",
     "CrCube.C01.nslices_cases",
+    "CrCube.C01.render_nslices",
     "CrCube.C01.counts_faithful_from_response_2d",
     "CrCube.C01.strand_counts_faithful_from_response",
     "CrCube.C01.counts_faithful_from_response_3d",
+    "CrCube.C01.libSliceCounts_counts",
+    "CrCube.C01.missing_items_never_contribute",
+    "CrCube.C01.decoded_ok",
 ]
 RULE = ("glue: (design) random designs of 1-3 variables over cat/cat_date/logical/datetime/text/binned/mr/ca(+transposed), "
         "missing categories anywhere, missing items, `type.order` permutations, as dict / text / envelope; (fuzz) 1-4 random "
@@ -61,8 +65,9 @@ RULE = ("glue: (design) random designs of 1-3 variables over cat/cat_date/logica
         "has a missing element, an order permutation, an array or raises; distinct = (family, types / exceptions, shapes)")
 ASSUMPTIONS = ["text parsing (json.loads) is a parameter of the model; the driver instantiates it with Lean's JSON parser",
                "list- or dict-valued ids / aliases are outside the model (Python == is modelled on None, bool, numbers, strings)"]
-TRUSTED_EXTRA = ["the harness no longer translates a generated design into the typed model input by hand for C01: "
-                 "Lean's decode of the raw response is compared with it on every glue case"]
+TRUSTED_EXTRA = ["the harness no longer translates a generated design into the typed model input by hand for C01: Lean's decode "
+                 "of the raw response is compared with it on every glue case; dropping array items flagged missing is a theorem "
+                 "for counts of 2-D CAT/MR cubes (C01.missing_items_never_contribute)"]
 
 KINDS = ["cat", "cat", "cat_date", "logical", "datetime", "text", "binned", "mr", "mr", "ca", "ca"]
 
@@ -106,10 +111,27 @@ def rcat_of(c):
     return out
 
 
-def rvar_of(v):
+def missing_variant(dims, mode):
+    """the same dimension dicts with `"missing": false` written as an absent key ("absent") or null ("null") —
+    both legitimate spellings of a valid element (`bool(d.get("missing"))`)"""
+    if mode == "bool":
+        return dims
+    dims = copy.deepcopy(dims)
+    for d in dims:
+        t = d["type"]
+        for e in t.get("categories", []) + t.get("elements", []):
+            if e.get("missing") is False:
+                if mode == "absent":
+                    del e["missing"]
+                else:
+                    e["missing"] = None
+    return dims
+
+
+def rvar_of(v, mode="bool"):
     """the render-specification input (Spec/GlueRender.lean `RVar`) for a generated variable, read back from the
     dimension dicts the generator produces (so that Lean's render of it can be compared with them)"""
-    dims = v.dimension_dicts()
+    dims = missing_variant(v.dimension_dicts(), mode)
     kind = v.kind
     out = {"kind": kind, "alias": v.alias}
     if kind in ("cat", "cat_date", "logical"):
@@ -206,6 +228,7 @@ def gen_design_case(rng):
     survey = gen.gen_survey(rng, vars_, n_resp=rng.randint(0, 6), weighted=False)
     return {"family": "design", "vars": [v.to_json() for v in vars_], "survey": gen.survey_to_json(survey),
             "form": rng.choice(["dict", "dict", "text", "envelope", "text_envelope"]),
+            "missing_mode": rng.choice(["bool", "bool", "absent", "null"]),
             "cube_idx": rng.choice([None, None, 0, 1])}
 
 
@@ -499,30 +522,23 @@ def _arg_of(resp, form):
 
 def _design_resp(case):
     vars_, survey = _load(case)
-    return vars_, gen.cube_response(vars_, survey, False)
+    resp = gen.cube_response(vars_, survey, False)
+    resp["result"]["dimensions"] = missing_variant(resp["result"]["dimensions"], case.get("missing_mode", "bool"))
+    return vars_, resp
 
 
 def lean_ops(case):
     fam = case["family"]
     if fam == "design":
         vars_, resp = _design_resp(case)
-        return [{"op": "glue_render", "vars": [rvar_of(v) for v in vars_]},
+        return [{"op": "glue_render", "vars": [rvar_of(v, case.get("missing_mode", "bool")) for v in vars_]},
                 {"op": "glue_cube", "arg": _arg_of(resp, case["form"]), "cube_idx": case["cube_idx"]}]
     if fam == "fuzz":
         return [{"op": "glue_dims", "dicts": case["dicts"]}]
-    return [{"op": "glue_cube", "arg": case["arg"], "cube_idx": case["cube_idx"], "ord": _observed_order(case["arg"])}]
+    return [{"op": "glue_cube", "arg": case["arg"], "cube_idx": case["cube_idx"]}]
 
 
-NUMERIC = ["mean", "median", "sum", "stddev", "valid_count_unweighted", "valid_count_weighted"]
-
-
-def _observed_order(arg):
-    """the order in which THIS process iterates the numeric measures present (hash order; a parameter of the model)"""
-    from cr.cube.cube import Cube
-    try:
-        return [m.value for m in Cube(copy.deepcopy(arg))._available_numeric_measures]
-    except Exception:
-        return NUMERIC
+NUMERIC = ["mean", "median", "stddev", "sum", "valid_count_unweighted", "valid_count_weighted"]
 
 
 # ---------------------------------------------------------------------------------------
